@@ -8,7 +8,6 @@ from hypothesis import strategies as st
 
 from vlib import gen, ring
 from vlib.build import make_cds, make_protocluster, make_record, to_loc
-from vlib.c05_patches import ALL_FIXES, FIX_ATTACHED, FIX_CROSS, FIX_MERGE, FIX_SCAN, repaired
 from vlib.runner import Violation, code_under_test
 
 PROPERTY_ID = "C05"
@@ -41,8 +40,6 @@ ASSUMPTIONS = [
     "test_overlap_interleave; it is part of the reference. Whether a promoted member that belongs to an interleaved "
     "group keeps a single is left open; two groups of one pass with the same coordinates are judged by the "
     "predicates only",
-    "vlib/c05_patches.py (the proposed repairs as in-process replacements) is used only to attribute an already "
-    "reported disagreement to known root causes, never to decide whether a case passes",
 ]
 
 HYBRID, INTERLEAVED, NEIGHBOURING, SINGLE = "chemical_hybrid", "interleaved", "neighbouring", "single"
@@ -135,7 +132,7 @@ class Reference:
         self.result: set = set()
         self.optional: set = set()    # singles the statement neither demands nor forbids
         self.big_span = False
-        self.input_classes: set = set()   # which known root causes the input could trigger at all
+        self.labels: set = set()      # structural classes of the input, for the coverage counters
         self._run()
 
     def extent_of(self, members) -> dict:
@@ -178,20 +175,30 @@ class Reference:
     def _members(self, unit) -> set:
         return set(self.existing[unit[1]][1]) if unit[0] == "cand" else {unit[1]}
 
-    def _grouping_pass(self, units: list, related) -> list:
+    def _grouping_pass(self, units: list, related, name: str) -> list:
         groups = []
         for comp in _components(units, related):
             if len(comp) > 1:
                 groups.append(set().union(*(self._members(unit) for unit in comp)))
             if len(comp) >= 4:
-                self.input_classes.add(FIX_MERGE)
+                self.labels.add(f"{name}_component_of_4_or_more_units")
         candidates = [unit for unit in units if unit[0] == "cand"]
         for unit in units:
             if unit[0] != "proto":
                 continue
-            to_candidate = any(related(unit, other) for other in candidates)
-            if to_candidate and len(candidates) > 1:
-                self.input_classes.add(FIX_SCAN)
+            linked = [other for other in candidates if related(unit, other)]
+            if linked and len(candidates) > 1:
+                self.labels.add(f"{name}_protocluster_joins_one_of_several_candidates")
+            if any(not related(one, two) for one, two in itertools.combinations(linked, 2)):
+                # the protocluster is the only thing that connects two candidates
+                self.labels.add(f"{name}_protocluster_bridges_unrelated_candidates")
+            if name == "neighbouring" and linked and any(
+                    other[0] == "proto" and other != unit and related(unit, other) for other in units):
+                self.labels.add("neighbouring_chain_candidate_single_single")
+            if name == "neighbouring" and len(self.protos[unit[1]]["loc"]["parts"]) > 1:
+                peers = [other for other in units if other[0] == "proto" and other != unit and related(unit, other)]
+                if any(not related(one, two) for one, two in itertools.combinations(peers, 2)):
+                    self.labels.add("neighbouring_spanning_single_with_unrelated_neighbours")
         return groups
 
     def _run(self) -> None:
@@ -204,7 +211,7 @@ class Reference:
         groups = []
         for comp in comps:
             if len(comp) >= 4:
-                self.input_classes.add(FIX_MERGE)
+                self.labels.add("hybrid_component_of_4_or_more_units")
             core = self.core_of(comp)
             members = set(comp)
             for other in everything:
@@ -221,8 +228,8 @@ class Reference:
             for unit in units:
                 if unit[0] == "cand" and len(cores[unit]["parts"]) > 1 and any(
                         len(protos[i]["core"]["parts"]) == 1 for i in self._members(unit)):
-                    self.input_classes.add(FIX_CROSS)
-        groups = self._grouping_pass(units, lambda a, b: ring.overlap(cores[a], cores[b]))
+                    self.labels.add("hybrid_core_spans_origin_with_plain_member")
+        groups = self._grouping_pass(units, lambda a, b: ring.overlap(cores[a], cores[b]), "interleaved")
         absorbed |= {i for g in groups for i in g}
         self._build(groups, INTERLEAVED, 2)
         self.absorbed = set(absorbed)
@@ -234,11 +241,7 @@ class Reference:
         def neighbours(one, two) -> bool:
             return ring.overlap(extents[one], extents[two])
 
-        for unit in units:
-            if unit[0] == "proto" and any(other[0] == "cand" and neighbours(unit, other) for other in units) \
-                    and any(other[0] == "proto" and other != unit and neighbours(unit, other) for other in units):
-                self.input_classes.add(FIX_ATTACHED)
-        groups = self._grouping_pass(units, neighbours)
+        groups = self._grouping_pass(units, neighbours, "neighbouring")
         self._build(groups, NEIGHBOURING, 3)
 
         # 4. singles for everything not absorbed and for the promoted extras
@@ -485,25 +488,8 @@ def check_form(spec: dict) -> dict:
 
     failures = judge_all(outcomes)
     if failures:
-        # which of the known root causes (if any) account for all of it: the smallest set of proposed repairs,
-        # among those whose input class is present, after which nothing is left to complain about
-        explained = None
-        possible = [fix for fix in ALL_FIXES if fix in model.input_classes]
-        for size in range(1, len(possible) + 1):
-            for fixes in itertools.combinations(possible, size):
-                try:
-                    with repaired(fixes):
-                        results = run_all()
-                except Violation:
-                    continue    # this set of repairs does not even run on the case: it explains nothing
-                if not judge_all(results):
-                    explained = list(fixes)
-                    break
-            if explained is not None:
-                break
         detail = dict(failures[0][1])
         detail["all_failed"] = sorted({clause for clause, _ in failures})
-        detail["explained_by"] = sorted(explained or [])
         raise Violation(failures[0][0], detail)
 
     return _describe(spec, outcomes[0], model, repeated_member)
@@ -556,41 +542,22 @@ def _describe(spec: dict, got: list, model: Reference, repeated_member: bool) ->
         classes.append("origin_spanning_protocluster")
     if any(p.get("sideloaded") for p in protos):
         classes.append("sideloaded_protocluster")
-    classes.extend(f"input_class_{name}" for name in sorted(model.input_classes))
+    classes.extend(sorted(model.labels))
+    if spec.get("family"):
+        classes.append("family_" + spec["family"])
     nontrivial = (count >= 3 and len(relations) >= 2) or across_origin or identical or bool(model.extras)
     return {"nontrivial": nontrivial, "classes": classes}
 
 
-SUBCHECKS = {"form": check_form, "form_enum": check_form, "form_twins_enum": check_form}
+SUBCHECKS = {"form": check_form, "form_enum": check_form, "form_twins_enum": check_form,
+             "form_bridge_enum": check_form, "form_spanning_enum": check_form}
 
 
-# Which clauses a known root cause can break (failure mode); the input class is Reference.input_classes, and the
-# attribution itself (detail["explained_by"]) is made in check_form: the smallest set of proposed repairs, among
-# those whose input class is present, after which the case passes completely.
-ALWAYS = {"model_grouping", "model_kind_label"}
-BREAKS = {
-    FIX_ATTACHED: {"P7_neighbouring_group_split", "P13_neighbouring_not_closed"},
-    FIX_SCAN: {"P6_interleaved_group_split", "P7_neighbouring_group_split", "P12_interleaved_not_closed",
-               "P13_neighbouring_not_closed", "P9_single_of_absorbed"},
-    FIX_CROSS: {"P12_interleaved_not_closed", "P6_interleaved_group_split"},
-    FIX_MERGE: {"P4_order", "P5_hybrid_group_split", "P6_interleaved_group_split", "P7_neighbouring_group_split",
-                "P11_hybrid_not_closed", "P12_interleaved_not_closed", "P13_neighbouring_not_closed",
-                "P9_single_of_absorbed"},
-}
-
-
-def _signature(fix: str):
-    def matches(sub: str, spec: dict, clause: str, detail: dict) -> bool:
-        if not isinstance(detail, dict) or fix not in (detail.get("explained_by") or []):
-            return False
-        allowed = set(ALWAYS)
-        for name in detail["explained_by"]:
-            allowed |= BREAKS[name]
-        return set(detail.get("all_failed") or [clause]) <= allowed
-    return matches
-
-
-SIGNATURES: dict = {fix: _signature(fix) for fix in ALL_FIXES}
+# All C05 findings are repaired in /repo (known_findings.json, status fixed; witnesses in replays/C05/), so nothing
+# is excluded any more. The names stay so that the fixed entries keep referring to something; they never match.
+SIGNATURES: dict = {name: (lambda sub, spec, clause, detail: False)
+                    for name in ("attached_single", "merge_single_pass", "candidate_scan_start",
+                                 "cross_origin_partial_group")}
 
 
 # --------------------------------------------------------------------------- generator
@@ -628,6 +595,107 @@ def _extent(core_start: int, core_size: int, left: int, right: int, length: int,
         right = min(right, spare - left)
         total = core_size + left + right
     return ring.arc_to_loc((core_start - left) % length, total, length, 1)
+
+
+def _rotated(start: int, size: int, offset: int, length: int, circular: bool) -> dict:
+    return ring.arc_to_loc((start + offset) % length if circular else start, size, length, 1)
+
+
+@st.composite
+def bridge_specs(draw):
+    """ forced family: 2-3 chemical-hybrid pairs in a row whose cores do not overlap each other, and between
+        neighbouring pairs a protocluster without defining genes reaching -1/0/1/2/5 bases into either side
+        (core, or only the neighbourhood); on a ring the whole layout is rotated so that it may lie across the origin """
+    circular = draw(st.booleans())
+    hybrids = draw(st.sampled_from([2, 2, 3]))
+    items: list = []     # (core start, core size, left, right, product, gene index or None)
+    genes_at: list = []
+    cursor = draw(st.integers(0, 40))
+    ends: list = []
+    starts: list = []
+    hood = st.sampled_from([0, 0, 1, 5, 20])
+    for number in range(hybrids):
+        width = draw(st.integers(6, 40))
+        shift = draw(st.integers(1, width - 3))
+        second = draw(st.integers(3, 40))
+        genes_at.append((cursor + shift, (f"h{number}a", f"h{number}b")))
+        items.append((cursor, width, draw(hood), draw(hood), f"h{number}a"))
+        items.append((cursor + shift, second, draw(hood), draw(hood), f"h{number}b"))
+        starts.append(cursor)
+        ends.append(max(cursor + width, cursor + shift + second))
+        cursor = ends[-1] + draw(st.sampled_from([1, 2, 3, 10, 30, 60]))
+    reach = st.sampled_from([-1, 0, 1, 1, 2, 5])
+    for number in range(hybrids - 1):
+        for _ in range(draw(st.sampled_from([1, 1, 2]))):
+            lo = ends[number] - draw(reach)
+            hi = starts[number + 1] + draw(reach)
+            if hi - lo < 1:
+                lo, hi = ends[number] - 1, starts[number + 1] + 1
+            items.append((lo, hi - lo, draw(hood), draw(hood), "bridge"))
+    if draw(st.booleans()):
+        items.append((cursor + 5, draw(st.integers(1, 20)), draw(hood), draw(hood), "far"))
+        cursor += 30
+    length = max(60, cursor + draw(st.integers(1, 80)))
+    offset = draw(st.integers(0, length - 1)) if circular else 0
+    genes = []
+    for index, (at, products) in enumerate(genes_at):
+        loc = _rotated(at, 3, offset, length, circular)
+        loc["kind"] = "span" if len(loc["parts"]) > 1 else "simple"
+        genes.append({"name": f"g{index}", "loc": loc, "core_for": list(products)})
+    protos = []
+    for start, size, left, right, product in draw(st.permutations(items)):
+        begin = (start + offset) % length if circular else start
+        protos.append({"core": ring.arc_to_loc(begin, size, length, 1),
+                       "loc": _extent(begin, size, left, right, length, circular), "product": product})
+    indices = list(range(len(protos)))
+    perms = [indices, indices[::-1]] + [list(draw(st.permutations(indices))) for _ in range(3)]
+    return {"L": length, "circular": circular, "genes": genes, "protos": protos, "perms": perms,
+            "family": "hybrids_and_bridges"}
+
+
+@st.composite
+def spanning_specs(draw):
+    """ forced family: a ring with one protocluster whose neighbourhood lies across the origin, 2-4 small mutually
+        disjoint protoclusters inside the part before the origin, 0-2 inside the part after it, and 1-2 elsewhere;
+        nothing shares a gene, gaps of -1/0/1 bases at the edges of the big one """
+    pre = draw(st.integers(12, 200))
+    post = draw(st.integers(3, 200))
+    middle = draw(st.integers(10, 300))
+    length = pre + post + middle
+    core_size = draw(st.integers(1, min(pre, post, 30)))
+    core_start = draw(st.sampled_from([length - pre, length - core_size // 2 - 1, length - 1, 0,
+                                       max(0, post - core_size)]))
+    core_start = min(core_start, length - pre + pre + post - core_size) % length
+    big_core = ring.arc_to_loc(core_start, core_size, length, 1)
+    big = {"core": big_core, "loc": ring.arc_to_loc(length - pre, pre + post, length, 1), "product": "big"}
+    if not ring.contains(big["loc"], big_core):
+        big["core"] = ring.arc_to_loc(length - 1, min(2, post + 1), length, 1)
+    protos = [big]
+
+    def smalls(lo: int, hi: int, count: int, label: str) -> None:
+        """ disjoint small protoclusters inside [lo, hi), by construction """
+        room = hi - lo
+        count = min(count, room // 2)
+        cursor = lo + draw(st.sampled_from([-1, 0, 0, 1, 2])) if label != "mid" else lo + draw(st.integers(1, 5))
+        for number in range(count):
+            left_room = (hi - cursor) - 2 * (count - number - 1)
+            if left_room < 1:
+                break
+            size = draw(st.integers(1, max(1, min(left_room, room // count))))
+            start = max(0, cursor) % length
+            protos.append({"core": ring.arc_to_loc(start, size, length, 1),
+                           "loc": ring.arc_to_loc(start, size, length, 1), "product": f"{label}{number}"})
+            cursor = cursor + size + draw(st.sampled_from([1, 1, 2, 5]))
+
+    smalls(length - pre, length, draw(st.integers(2, 4)), "pre")
+    smalls(0, post, draw(st.integers(0, 2)), "post")
+    smalls(post, length - pre, draw(st.integers(1, 2)), "mid")
+    protos = [proto for proto in protos if proto["loc"]["parts"][-1][1] <= length]
+    protos = list(draw(st.permutations(protos)))
+    indices = list(range(len(protos)))
+    perms = [indices, indices[::-1]] + [list(draw(st.permutations(indices))) for _ in range(3)]
+    return {"L": length, "circular": True, "genes": [], "protos": protos, "perms": perms,
+            "family": "spanning_single_and_singles"}
 
 
 @st.composite
@@ -805,10 +873,70 @@ def enum_twin_cases(cells: int):
     return cases
 
 
+def enum_bridge_cases(cells: int):
+    """ two chemical-hybrid pairs and one protocluster without defining genes: every pair of twin shapes
+        (neighbourhood 0-1 cell, core holding an even cell) x every shape with a core of 1-3 cells and no
+        neighbourhood; the genes of the even cells are core genes of the four twin products only """
+    def cases():
+        length = 3 * cells
+        products = ["p0", "p1", "p2", "p3"]
+        genes = [{"name": f"g{k}", "loc": {"parts": [[3 * k, 3 * k + 3]], "strand": 1},
+                  "core_for": products if k % 2 == 0 else []} for k in range(cells)]
+        perms = [[0, 1, 2, 3, 4], [4, 3, 2, 1, 0], [4, 0, 2, 1, 3]]
+        for circular in (False, True):
+            twins = [shape for shape in _enum_shapes(cells, circular)
+                     if len(ring.bases(shape["loc"])) - len(ring.bases(shape["core"])) <= 6
+                     and any(ring.contains(shape["core"], gene["loc"]) and gene["core_for"] for gene in genes)]
+            bridges = []
+            for size in (1, 2, 3):
+                for start in range(cells if circular else cells - size + 1):
+                    core = ring.arc_to_loc(3 * start, 3 * size, length, 1)
+                    bridges.append({"core": core, "loc": core})
+            for one, two in itertools.combinations_with_replacement(range(len(twins)), 2):
+                for bridge in bridges:
+                    protos = [dict(twins[one], product="p0"), dict(twins[one], product="p1"),
+                              dict(twins[two], product="p2"), dict(twins[two], product="p3"),
+                              dict(bridge, product="bridge")]
+                    yield {"L": length, "circular": circular, "genes": genes, "protos": protos, "perms": perms,
+                           "family": "hybrids_and_bridges"}
+    return cases
+
+
+def enum_spanning_cases(cells: int):
+    """ a ring, no genes: every protocluster whose extent lies across the origin (any arc of cells through 0 shorter
+        than the ring; core = its first cell, the cell before or after the origin, or its last cell) x every set of
+        2-4 cells each holding a one-cell protocluster without neighbourhood """
+    def cases():
+        length = 3 * cells
+        for start in range(1, cells):
+            for size in range(cells - start + 1, cells):
+                positions = sorted({start, cells - 1, 0, (start + size - 1) % cells})
+                for core_cell in positions:
+                    if (core_cell - start) % cells >= size:
+                        continue
+                    big = {"core": ring.arc_to_loc(3 * core_cell, 3, length, 1),
+                           "loc": ring.arc_to_loc(3 * start, 3 * size, length, 1), "product": "big"}
+                    for count in (2, 3, 4):
+                        for chosen in itertools.combinations(range(cells), count):
+                            protos = [big] + [{"core": {"parts": [[3 * c, 3 * c + 3]], "strand": 1},
+                                               "loc": {"parts": [[3 * c, 3 * c + 3]], "strand": 1},
+                                               "product": f"s{i}"} for i, c in enumerate(chosen)]
+                            indices = list(range(len(protos)))
+                            perms = [indices, indices[::-1], indices[1:] + indices[:1]]
+                            yield {"L": length, "circular": True, "genes": [], "protos": protos, "perms": perms,
+                                   "family": "spanning_single_and_singles"}
+    return cases
+
+
 def run(ctx) -> None:
     plan = ctx.pick([(7, 2), (5, 3)], [(8, 2), (6, 3), (6, 4)])
     ctx.extra["enumeration_plan"] = [{"cells": cells, "protoclusters": count} for cells, count in plan]
     ctx.enum("form_enum", enum_cases(plan), shards=ctx.pick(8, 16), stop_after=3)
     ctx.extra["twin_enumeration_cells"] = ctx.pick(7, 10)
     ctx.enum("form_twins_enum", enum_twin_cases(ctx.pick(7, 10)), shards=ctx.pick(8, 16), stop_after=3)
-    ctx.hyp("form", form_specs(), max_examples=ctx.pick(2000, 30000), shards=ctx.pick(8, 16))
+    ctx.extra["bridge_enumeration_cells"] = ctx.pick(6, 7)
+    ctx.enum("form_bridge_enum", enum_bridge_cases(ctx.pick(6, 7)), shards=ctx.pick(8, 16), stop_after=3)
+    ctx.extra["spanning_enumeration_cells"] = ctx.pick(7, 9)
+    ctx.enum("form_spanning_enum", enum_spanning_cases(ctx.pick(7, 9)), shards=ctx.pick(8, 16), stop_after=3)
+    mixed = st.one_of(form_specs(), form_specs(), form_specs(), bridge_specs(), spanning_specs())
+    ctx.hyp("form", mixed, max_examples=ctx.pick(2000, 30000), shards=ctx.pick(8, 16))
